@@ -92,6 +92,9 @@ def evaluate_with_simplex_interpolation(inputs, kernel, units, lattice_sizes,
     # Avoid the corner case of landing on the outermost edge.
     lower_corner_coordinates = tf.minimum(lower_corner_coordinates,
                                           np.array(lattice_sizes) - 2)
+    # Inputs below the lattice (possible when inputs are not clipped) belong to
+    # the first cell.
+    lower_corner_coordinates = tf.maximum(lower_corner_coordinates, 0)
 
     # Multiplying coordinates by strides and summing up gives out the index into
     # the flattened parameter tensor.
